@@ -25,6 +25,17 @@ def _is_init_value(v, target):
     return False
 
 
+def _is_get_increment(v, target):
+    """`d.get(k, 0) + 1` (either order) for the entry `d[k]` being assigned."""
+    if not (isinstance(v, ast.BinOp) and isinstance(v.op, ast.Add)):
+        return False
+    for a, b in ((v.left, v.right), (v.right, v.left)):
+        if is_lit(b, 1) and isinstance(a, ast.Call) and isinstance(a.func, ast.Attribute) and a.func.attr == "get" and len(a.args) == 2 \
+                and not a.keywords and is_lit(a.args[1], 0) and norm(a.func.value) == norm(target.value) and norm(a.args[0]) == norm(target.slice):
+            return True
+    return False
+
+
 def accumulator_writes(ctx):
     """(Func, node, kind, detail) for every write to an evidence table."""
     out = []
@@ -57,6 +68,9 @@ def accumulator_writes(ctx):
                             else:
                                 out.append((f, n, "BAD", "entry `%s` is (re)initialised without an absence test: counts already "
                                                           "gathered under that key are lost" % norm(t)))
+                        elif _is_get_increment(n.value, t):
+                            out.append((f, n, "inc", "increment by exactly 1 (d[k] = d.get(k, 0) + 1: absence initialisation and "
+                                                     "increment in one statement)"))
                         else:
                             out.append((f, n, "BAD", "accumulator entry assigned a computed value `%s`" % norm(n)[:70]))
             elif isinstance(n, ast.Delete):
@@ -80,6 +94,9 @@ def accumulator_writes(ctx):
                                                    "for several classes / labels keeps only the first"))
                     else:
                         out.append((f, n, "append", "class appended to an instance entry"))
+                elif n.func.attr == "setdefault" and len(n.args) == 2 and not n.keywords \
+                        and _is_init_value(n.args[1], ast.Subscript(value=n.func.value, slice=n.args[0], ctx=ast.Load())):
+                    out.append((f, n, "init", "absence initialisation (setdefault with an empty value keeps what is there)"))
                 else:
                     out.append((f, n, "BAD", "accumulator mutated with .%s(): `%s`" % (n.func.attr, norm(n)[:70])))
     return out
@@ -145,6 +162,26 @@ def _single_def(f, name):
     return defs[0].value if len(defs) == 1 else None
 
 
+def _expand(f, expr, depth=0):
+    """expr with local aliases of table paths written out: `t = D[k]` ... `t[c]` reads `D[k][c]` (also after the loader's
+    lowering of `for k, t in D.items()`)."""
+    import copy
+    if expr is None or depth > 6:
+        return expr
+
+    class _X(ast.NodeTransformer):
+        def visit_Name(self, n):
+            if isinstance(n.ctx, ast.Load) and n.id in f.local_names:
+                d = _single_def(f, n.id)
+                cur = d
+                while isinstance(cur, (ast.Subscript, ast.Attribute)):
+                    cur = cur.value
+                if d is not None and isinstance(d, (ast.Subscript, ast.Attribute)) and isinstance(cur, ast.Name):
+                    return _expand(f, copy.deepcopy(d), depth + 1)
+            return n
+    return _X().visit(copy.deepcopy(expr))
+
+
 def _loop_chain(f, node):
     pm = parent_map(f.node)
     chain, cur = [], node
@@ -198,7 +235,7 @@ def candidate_dataflow(ctx, clause):
                 if not (isinstance(a_occ, ast.Name) and a_occ.id == nocc.id):
                     problems.append("the frequency is computed from `%s` but the statement reports n_occurences=`%s`" % (
                         norm(a_occ) if a_occ is not None else "?", nocc.id))
-                nd = _single_def(f, nocc.id)
+                nd = _expand(f, _single_def(f, nocc.id))
                 idx = []
                 cur = nd
                 while isinstance(cur, ast.Subscript):
@@ -224,7 +261,7 @@ def candidate_dataflow(ctx, clause):
                             want_iter = nd
                             for _ in range(3 - depth):
                                 want_iter = want_iter.value
-                            if norm(lp.iter) != norm(want_iter):
+                            if norm(_expand(f, lp.iter)) != norm(want_iter):
                                 problems.append("loop over `%s` does not iterate the profile level the count is read from (`%s`)" % (
                                     norm(lp.iter)[:50], norm(want_iter)[:50]))
                         # denominator: class count of the same class key
@@ -337,6 +374,12 @@ def class_iteration_agreement(ctx, clause):
                     and isinstance(x.iter.func, ast.Attribute) and x.iter.func.attr == "items" and "i_dict" in norm(x.iter.func.value).replace("instances_dict", "i_dict"):
                 if isinstance(x.target.elts[1], ast.Name):
                     pair_lists.add(x.target.elts[1].id)
+            # the same pairing after the loader's lowering (`for k in D: v = D[k]`)
+            if isinstance(x, ast.For) and isinstance(x.target, ast.Name) and "i_dict" in norm(x.iter).replace("instances_dict", "i_dict") \
+                    and x.body and isinstance(x.body[0], ast.Assign) and len(x.body[0].targets) == 1 and isinstance(x.body[0].targets[0], ast.Name) \
+                    and isinstance(x.body[0].value, ast.Subscript) and norm(x.body[0].value.value) == norm(x.iter) \
+                    and isinstance(x.body[0].value.slice, ast.Name) and x.body[0].value.slice.id == x.target.id:
+                pair_lists.add(x.body[0].targets[0].id)
         for x in walk_own(f.node):
             its = []
             if isinstance(x, ast.For):
